@@ -381,7 +381,9 @@ def run(ck: Check):
         "context exit has returned or raised, or right before any other call that is not a nowait send), which put "
         "the registration and the Produce of a batch into COMMITTING / ABORTING; programs with nowait sends run on "
         "a one-broker cluster (one leader for both partitions); send_offsets_to_transaction is always awaited; "
-        "other concurrency between API calls is C07's subject, not modelled here",
+        "other concurrency between API calls is not in the model: send() calls parked in the accumulator (or batches "
+        "submitted through send_batch()) while commit_transaction() / abort_transaction() runs are exercised on C07's "
+        "driver and judged by monitors stating C16's clauses on the simulated cluster (stage 'concurrent sends')",
         "model/C16_TxnApi.v spec_must / spec_may: the hand-written table of required / permitted transitions "
         "(KIP-98, Java TransactionManager.State.isTransitionValid, order of requests in aiokafka's sender)",
     ]
